@@ -18,7 +18,7 @@
    C01_parameter_section_nonvacuous).  Remaining, validated but not proved: the 24 header fields, and the composition
    into load (save s). *)
 From Coq Require Import Lia ZifyN.
-From EZ Require Import Base Bytes Types Api Enc Dec Float32 Run Proofs_Bytes Proofs_Codec Proofs_Section Proofs_Record Proofs_Chain Proofs_ChainW Proofs_HeaderCodec Proofs_RoundTrip Proofs_Decide Run_Decide.
+From EZ Require Import Base Bytes Types Api Enc Dec Float32 Run Proofs_Bytes Proofs_Codec Proofs_Section Proofs_Record Proofs_Chain Proofs_ChainW Proofs_HeaderCodec Proofs_RoundTrip Proofs_Decide Run_Decide Proofs_PointsOnly.
 Local Open Scope N_scope.
 
 (* the frames of a saved object come back bit for bit: the data section written by save is read by the
@@ -285,3 +285,17 @@ Print Assumptions C01_decided.
 Example C01_decided_nonvacuous : ls_ok_x demo_state = true.
 Proof. vm_compute. reflexivity. Qed.
 Print Assumptions C01_decided_nonvacuous.
+
+(* the same for a data set WITHOUT channels whose frames hold fewer (or more) empty sub-frames than the header announces — what
+   the API builds when ANALOG:RATE is set and only points are stored: the file loads to the object with every frame's sub-frames
+   replaced by the header's number of empty ones (normalised: no point and no value changes, normalised_points) *)
+Theorem C01_decided_points_only : forall s, lsn_ok_x s = true ->
+  exists bytes blocks pn an, save_x s = Ok bytes /\ load_x bytes = Ok (reloaded (normalised s) blocks pn an).
+Proof. intros s H. exact (lsn_ok_load_save f_key_impl f_tosize_impl f_div_impl s H). Qed.
+Print Assumptions C01_decided_points_only.
+Theorem C01_normalised_keeps_points : forall s, map fr_pts (frames (normalised s)) = map fr_pts (frames s).
+Proof. exact normalised_points. Qed.
+Print Assumptions C01_normalised_keeps_points.
+Theorem C01_normalised_with_channels : forall s, h_nb_analogs (hdr s) <> 0 -> normalised s = s.
+Proof. exact normalised_with_channels. Qed.
+Print Assumptions C01_normalised_with_channels.
